@@ -5,7 +5,8 @@ import Ebv.Props.C03
 /-! Driver for C03: one JSON statement program per line (harness/vh/dsl_cond.py) → the instruction list the model
 `Ebv.Gen.emitCProg` emits (or the error enum), the comparison object trees, the defect-class names, and
 (after ` # `) whether the program satisfies the decidable hypothesis `Ebv.C03.progOkC` of `C03_partial`.
-`parseView … parseVar` are copies of the parsers in Drivers/C01.lean (a driver file cannot be imported). -/
+`parseView … parseVar` are copies of the parsers in Drivers/C01.lean (a driver file cannot be imported), `let`/`ref`
+included. -/
 open Ebv Ebv.Io Ebv.Ebpf Ebv.Gen Lean
 
 def parseView : String → Option View
@@ -19,20 +20,31 @@ def parseOp : String → Option SOp
   | "+" => some .add | "-" => some .sub | "*" => some .mul | "//" => some .floordiv | "%" => some .mod
   | "&" => some .and | "|" => some .or | "^" => some .xor | "<<" => some .lsh | ">>" => some .rsh | _ => none
 
-partial def parseExpr (j : Json) : Option SExpr := do
+/-- `["let", name, a, body]` builds the object of `a` once and uses it wherever `body` says `["ref", name]` (the
+harness does that with one real Python object).  The operator overloads never mutate an operand, so the shared object
+is the same as a copy of its tree at every use: the parser substitutes. -/
+partial def parseExprIn (bound : List (String × SExpr)) (j : Json) : Option SExpr := do
   match ← jArr j with
   | [k, a] =>
     let k ← jStr k
     if k == "c" then pure (.c (← jInt a))
     else if k == "v" then pure (.var (← jStr a))
-    else if k == "neg" then pure (.neg (← parseExpr a))
-    else if k == "abs" then pure (.abs (← parseExpr a))
+    else if k == "ref" then (do let n ← jStr a; (bound.find? (·.1 == n)).map (·.2))
+    else if k == "neg" then pure (.neg (← parseExprIn bound a))
+    else if k == "abs" then pure (.abs (← parseExprIn bound a))
     else pure (.reg (← parseView k) (← jNat a))
   | [k, a, b] =>
     let k ← jStr k
-    if k == "m" then pure (.m (← parseFmt (← jStr a)) (← parseExpr b))
-    else pure (.bin (← parseOp k) (← parseExpr a) (← parseExpr b))
+    if k == "m" then pure (.m (← parseFmt (← jStr a)) (← parseExprIn bound b))
+    else pure (.bin (← parseOp k) (← parseExprIn bound a) (← parseExprIn bound b))
+  | [k, n, a, b] =>
+    if (← jStr k) == "let" then do
+      let x ← parseExprIn bound a
+      parseExprIn ((← jStr n, x) :: bound) b
+    else none
   | _ => none
+
+def parseExpr (j : Json) : Option SExpr := parseExprIn [] j
 
 def parseDest (j : Json) : Option Dest := do
   match ← jArr j with
